@@ -11,6 +11,12 @@ pub struct Site {
     pub path: Vec<usize>,
     /// The inherited annotation map is empty at this position by the language's flow rules.
     pub empty_ann: bool,
+    /// The keys of the annotations the position inherits (from enclosing annotation nodes and,
+    /// at the head of a declaration body, from the declaration).
+    pub ann_keys: BTreeSet<String>,
+    /// `ann_keys` is all the position inherits (false below the head of a declaration body, which
+    /// also inherits what every use of the declaration is annotated with).
+    pub known_ann: bool,
     /// Parameters and rec binders in scope at the node, outermost first.
     pub scope: Vec<Bid>,
     pub in_function: bool,
@@ -27,15 +33,26 @@ fn collect(e: &E, site: Site, out: &mut Vec<Site>) {
         s.path.push(i);
         match e {
             E::Paren(_) => {}
-            E::Ann(_, _, _) => s.empty_ann = false,
+            E::Ann(lines, inline, _) => {
+                s.empty_ann = false;
+                for a in lines.iter().chain(inline.iter()) {
+                    s.ann_keys.extend(a.keys().cloned());
+                }
+            }
             E::Rec(b, _) => {
                 s.scope.push(*b);
                 s.in_rec = true;
                 s.at_rec_head = true;
             }
-            E::Op(OpKind::Sum, _) => s.empty_ann = true,
+            E::Op(OpKind::Sum, _) => {
+                s.empty_ann = true;
+                s.known_ann = true;
+                s.ann_keys.clear();
+            }
             _ => {
                 s.empty_ann = true;
+                s.known_ann = true;
+                s.ann_keys.clear();
                 s.at_rec_head = false;
             }
         }
@@ -50,10 +67,10 @@ pub fn sites(prog: &Program) -> Vec<Site> {
             match st {
                 Stmt::Let(d) => collect(
                     &d.body,
-                    Site { module: mi, stmt: si, path: vec![], empty_ann: false, scope: d.params.clone(), in_function: !d.params.is_empty(), in_rec: false, at_rec_head: false },
+                    Site { module: mi, stmt: si, path: vec![], empty_ann: false, ann_keys: d.anns.iter().flat_map(|a| a.keys().cloned()).collect(), known_ann: false, scope: d.params.clone(), in_function: !d.params.is_empty(), in_rec: false, at_rec_head: false },
                     &mut out,
                 ),
-                Stmt::Res(e) => collect(e, Site { module: mi, stmt: si, path: vec![], empty_ann: true, scope: vec![], in_function: false, in_rec: false, at_rec_head: false }, &mut out),
+                Stmt::Res(e) => collect(e, Site { module: mi, stmt: si, path: vec![], empty_ann: true, ann_keys: BTreeSet::new(), known_ann: true, scope: vec![], in_function: false, in_rec: false, at_rec_head: false }, &mut out),
                 Stmt::Use(_) => {}
             }
         }
@@ -249,11 +266,45 @@ fn refresh_rec_binders(e: &mut E, prog: &mut Program) {
 
 /// 3a. Wrap a sub-expression in a fresh single-use identity function: `let w p = p; … (w t)`.
 pub fn wrap_in_function(prog: &mut Program, t: &mut Tape) -> Option<&'static str> {
-    let ss: Vec<Site> = sites(prog).into_iter().filter(|s| s.empty_ann && !s.path.is_empty()).collect();
+    // Positions that inherit nothing, and names under a `title` annotation: `title` is only read
+    // when a value is turned into a schema, after the merge that a parameter use makes, so the
+    // identity function is not observable there either (argument annotations and use-site
+    // annotations must merge key by key).
+    // (The name must denote an inlined declaration whose body is a constructor: a `rec`, a
+    // reference declaration or an application would store the title in a component.)
+    let recursive = crate::refsem::analyse_cycles(prog).recursive;
+    let plain_decl = |e: &E| -> bool {
+        let E::Var(v) = e else { return false };
+        let Some((_, d)) = v.binder.and_then(|b| prog.decl(b)) else { return false };
+        let mut body = &d.body;
+        // A title of its own would be overridden by the use-site title after the rewrite, but
+        // overrides it before (inner annotations win when inlined, use-site ones at a parameter).
+        let mut own_title = d.anns.iter().any(|a| a.contains_key("title"));
+        loop {
+            match body {
+                E::Paren(i) => body = i,
+                E::Ann(lines, inline, i) => {
+                    own_title |= lines.iter().chain(inline.iter()).any(|a| a.contains_key("title"));
+                    body = i;
+                }
+                _ => break,
+            }
+        }
+        !own_title
+            && d.params.is_empty()
+            && !recursive.contains(&d.id)
+            && !prog.binders[d.id].name.starts_with('@')
+            && matches!(body, E::Prim(_) | E::Object(_) | E::Array(_) | E::Uri(_, _) | E::Op(_, _) | E::Relation(_, _))
+    };
+    let titled = |s: &Site| !s.empty_ann && s.known_ann && !s.ann_keys.is_empty() && s.ann_keys.iter().all(|k| k == "title") && plain_decl(node(prog, s));
+    let ss: Vec<Site> = sites(prog).into_iter().filter(|s| (s.empty_ann || titled(s)) && !s.path.is_empty()).collect();
     if ss.is_empty() {
         return None;
     }
-    let s = ss[t.choose(ss.len())].clone();
+    // Titled names are few: take one of them half of the time when there is one.
+    let ts: Vec<usize> = ss.iter().enumerate().filter(|(_, s)| !s.empty_ann).map(|(i, _)| i).collect();
+    let s = if !ts.is_empty() && t.chance(1, 2) { ss[*t.pick_ref(&ts)].clone() } else { ss[t.choose(ss.len())].clone() };
+    let under_title = !s.empty_ann;
     let fname = fresh_name(prog, "zw");
     let f = prog.fresh_binder(fname, BinderKind::Decl { module: s.module }, dummy_kind());
     let p = prog.fresh_binder("zp".to_owned(), BinderKind::Param { decl: f }, dummy_kind());
@@ -264,7 +315,13 @@ pub fn wrap_in_function(prog: &mut Program, t: &mut Tape) -> Option<&'static str
     prog.modules[s.module]
         .stmts
         .insert(at, Stmt::Let(Decl { id: f, anns: vec![], params: vec![p], body: E::Var(VarRef { binder: Some(p), via: None, free_name: None }) }));
-    Some(if s.in_function { "wrap-in-function-inside-function" } else { "wrap-in-function" })
+    Some(if under_title {
+        "wrap-in-function-under-title"
+    } else if s.in_function {
+        "wrap-in-function-inside-function"
+    } else {
+        "wrap-in-function"
+    })
 }
 
 /// 3b. Abstract a closed sub-expression out of a declaration body:
